@@ -135,8 +135,10 @@ func TestVF_C21(t *testing.T) {
 		"an error is accepted iff a zone has fewer nodes than the take or the shard has fewer nodes than RF, and is then required; otherwise getTenantShard(tenant).Nodes() has exactly the take per zone "+
 		"(resp. s in total), is the same set in the LRU-cached sub-ring (a second computation), every GetN(k<RF) endpoint lies in that set, and placements are identical "+
 		"before and after the tenant was evicted from the cache and for 4 concurrent goroutines (3 tenants each) on a fresh ring; race detector on; "+
-		"distinct = (configuration, tenant) with a successfully built shard smaller than the whole ring", nTenants, nSeries))
-	n := r.N(80, 600)
+		"part B (size/membership clause only, high volume): %d small base rings (1..3 zones x 2..3 nodes, or one zone of 2..4; 8 address styles) built by newKetamaHashring with only 1..64 sections per node + newShuffleShardHashring, "+
+		"take = zone size or one less (zone-unaware: n..n-2), RF 1, %d tenants each through the real getTenantShard: same size/membership/error oracle; "+
+		"distinct = (configuration, tenant) with a successfully built shard smaller than the whole ring", nTenants, nSeries, r.N(12, 100), r.N(100, 300)))
+	n := r.N(50, 500)
 	r.Require(int64(n)*int64(nTenants)/2, n)
 	r.Assume("the 'configured number of nodes per availability zone' is ceil(shard size / number of zones) (ShuffleShardExpectedInstancesPerZone, documented 'shard_size/number_of_azs is chosen from each availability zone')")
 	r.Assume("override globs are well-formed; an override without tenant_matcher_type is an exact override (config.go: exact 'is also the default one')")
@@ -164,6 +166,116 @@ func TestVF_C21(t *testing.T) {
 			return
 		}
 	}
+	// Part B: high-volume sweep of the shard size / membership clause only (cases n .. n+sweeps-1).
+	sweeps, perSweep := r.N(12, 100), r.N(100, 300)
+	for k := 0; k < sweeps; k++ {
+		c := n + k
+		if !r.Want(c) {
+			continue
+		}
+		rng := r.Rand(c)
+		r.Guard(c, "shuffle-shard-sweep", map[string]any{"sweep": k}, func() { vfc21Sweep(r, c, rng, perSweep) })
+	}
+}
+
+// vfc21Sweep builds one small base ring with FEW sections per node through the real constructors
+// (newKetamaHashring with a small sectionsPerNode argument, as the package's own tests do, then
+// newShuffleShardHashring) and asks the real getTenantShard for the shards of many tenants. With few
+// sections per node and a take close to the zone size, the per-zone draw often lands where the clockwise
+// walk has to skip selected nodes and wrap around the end of the zone ring - events that are ~1/3000 per
+// tenant at the production SectionsPerNode. Bypassed: NewMultiHashring/newHashring (they hard-wire
+// SectionsPerNode for the base ring) and GetN; the tenant sub-ring itself is still built by the code
+// with the production constant. RF = 1 keeps that build cheap and cannot hang.
+func vfc21Sweep(r *vfkit.Run, c int, rng *rand.Rand, tenants int) {
+	z := 1 + rng.Intn(3)
+	maxPerZone := 4
+	if z >= 2 {
+		maxPerZone = 3
+	}
+	var cs vfc21Case
+	cs.rf = 1
+	minSize := 1 << 30
+	i := 0
+	for zi := 0; zi < z; zi++ {
+		k := 2 + rng.Intn(maxPerZone-1)
+		minSize = min(minSize, k)
+		for j := 0; j < k; j++ {
+			cs.eps = append(cs.eps, Endpoint{Address: fmt.Sprintf("n%d", i), AZ: fmt.Sprintf("az-%d", zi)})
+			i++
+		}
+	}
+	addrs := vfc18kAddresses(rng, len(cs.eps), "")
+	for j := range cs.eps {
+		cs.eps[j].Address = addrs[j]
+	}
+	cs.eps = vfkit.Perm(rng, cs.eps)
+	spn := vfkit.Pick(rng, []int{1, 2, 3, 5, 8, 16, 64})
+	cs.ss.ZoneAwarenessDisabled = rng.Intn(4) == 0
+	if cs.ss.ZoneAwarenessDisabled {
+		cs.ss.ShardSize = max(1, len(cs.eps)-rng.Intn(3))
+	} else {
+		take := max(1, minSize-rng.Intn(2))
+		cs.ss.ShardSize = max(1, take*z-rng.Intn(z)) // ceil(ShardSize/z) == take
+	}
+	cs.ss.CacheSize = 1
+	sizes := vfc18kZoneSizes(cs.eps)
+	azOf := map[string]string{}
+	for _, e := range cs.eps {
+		azOf[e.Address] = e.AZ
+	}
+	zmode := "zone-aware"
+	if cs.ss.ZoneAwarenessDisabled {
+		zmode = "zone-unaware"
+	}
+	wit := func(extra map[string]any) map[string]any {
+		m := vfc21Describe(cs)
+		m["sections_per_node_of_base_ring"] = spn
+		m["entry_point"] = "newKetamaHashring(eps, sections_per_node, 1) + newShuffleShardHashring + getTenantShard"
+		for k, v := range extra {
+			m[k] = v
+		}
+		return m
+	}
+	base, err := newKetamaHashring(vfc18kCopyEndpoints(cs.eps), spn, 1)
+	if err != nil {
+		r.Count("sweep_skipped_construct_errors", 1)
+		return
+	}
+	ssh, err := newShuffleShardHashring(base, cs.ss, 1, prometheus.NewRegistry(), "vf-sweep")
+	if err != nil {
+		r.Count("sweep_skipped_construct_errors", 1)
+		return
+	}
+	defer ssh.Close()
+	r.Count("sweep_rings", 1)
+	for ti := 0; ti < tenants; ti++ {
+		tenant := fmt.Sprintf("tenant-%d", ti)
+		if ti%4 == 3 {
+			tenant = vfkit.Str(rng, 4, false) + fmt.Sprint(ti)
+		}
+		sh, err := ssh.getTenantShard(tenant)
+		r.Eval(1)
+		var set []string
+		if err == nil {
+			set = vfc21Set(sh.Nodes())
+			for _, a := range set {
+				if _, ok := azOf[a]; !ok {
+					r.Violation(c, "shard-node-not-in-hashring", fmt.Sprintf("tenant %q: shard node %q is not a configured endpoint", tenant, a), wit(map[string]any{"tenant": tenant, "shard": set}))
+					return
+				}
+			}
+		}
+		if problem, class := vfc21Judge(cs, sizes, azOf, cs.ss.ShardSize, err, set); problem != "" {
+			r.Violation(c, class+":"+zmode+":default-size", fmt.Sprintf("tenant %q, configured shard size %d, base ring with %d sections per node: %s", tenant, cs.ss.ShardSize, spn, problem),
+				wit(map[string]any{"tenant": tenant, "shard": set, "error": fmt.Sprint(err)}))
+			return
+		}
+		r.Count("sweep_tenants_ok", 1)
+		if err == nil && len(set) < len(cs.eps) {
+			r.Distinct(fmt.Sprintf("sweep|%v|%d|%d|%v|%q", vfc18kFmtEndpoints(cs.eps), spn, cs.ss.ShardSize, cs.ss.ZoneAwarenessDisabled, tenant))
+		}
+	}
+	r.Sample(map[string]any{"sweep": true, "zones": vfc18kLayoutString(cs.eps), "sections_per_node": spn, "mode": zmode, "shard_size": cs.ss.ShardSize, "tenants": tenants})
 }
 
 func vfc21Build(cs vfc21Case) (Hashring, *shuffleShardHashring, error) {
